@@ -24,7 +24,8 @@ RULE = ("all prefix histories to the stated depth over {new person, new company,
         "No state de-duplication. non-trivial = prefixes in which a related instance died and was swept")
 ASSUMPTIONS = ["sweep = SymbolGraph().remove_dead_instances(), which is what every evaluate() calls first",
                "gc.collect() after dropping makes cyclic garbage die like acyclic garbage"]
-BOUNDS = {"quick": {"prefix_depth": 4, "prefix_depth_core_suffixes": 5}, "thorough": {"prefix_depth": 5, "prefix_depth_core_suffixes": 6}}
+BOUNDS = {"quick": {"prefix_depth": 4, "prefix_depth_core_suffixes": 5, "unit_history_depth": 5},
+          "thorough": {"prefix_depth": 5, "prefix_depth_core_suffixes": 6, "unit_history_depth": 6}}
 CHUNK = 300
 RECYCLE_CHUNKS = 6
 BUDGET_S = {"quick": 900, "thorough": 8000}
@@ -38,9 +39,14 @@ for order in ("PC", "CP"):
 for order in ("PEC", "CPE"):
     for asserts in (("h",), ("h", "s"), ("w", "h2")):
         SUFFIXES.append((order, asserts))
+# a sweep (what every evaluate() does first) between the creation of the suffix objects and an assertion, and between
+# two assertions
+SUFFIXES += [("PC", ("sweep", "w")), ("CP", ("sweep", "s", "m")), ("PC", ("w", "sweep", "m")), ("CP", ("s", "sweep", "w")),
+             ("PEC", ("sweep", "h")), ("PEC", ("h", "sweep", "s"))]
 
 
-CORE_SUFFIXES = [("PC", ("w",)), ("CP", ("w",)), ("CP", ("s", "m")), ("PC", ("m",)), ("PEC", ("h",)), ("CPE", ("h", "s"))]
+CORE_SUFFIXES = [("PC", ("w",)), ("CP", ("w",)), ("CP", ("s", "m")), ("PC", ("m",)), ("PEC", ("h",)), ("CPE", ("h", "s")),
+                 ("PC", ("w", "sweep", "m")), ("CP", ("sweep", "s", "m"))]
 
 
 def cases(tier, seed):
@@ -66,6 +72,9 @@ def cases(tier, seed):
     for pre, final_sweep, suf in list(out):
         if len(pre) <= d and reuse_possible(pre, final_sweep) and (suf in CORE_SUFFIXES or len(pre) < d):
             out.append((pre, final_sweep, suf, "recycled"))
+    units = unit_cases(BOUNDS[tier]["unit_history_depth"])
+    out += units
+    out += [("units@recycled", seq) for _, seq in units if len(seq) < BOUNDS[tier]["unit_history_depth"]]
     return out
 
 
@@ -80,6 +89,107 @@ def reuse_possible(pre, final_sweep):
         elif op.startswith("new") and dead_unswept:
             return True
     return bool(pre) and any(op.startswith("new") for op in pre) and not final_sweep
+
+
+UNIT_OPS = ["newU", "rel_new_old", "rel_old_new", "rel_new_mid", "clear_new", "clear_old", "drop_old", "drop_new", "sweep"]
+
+
+UNIT_STARTS = {0: (), 1: ("newU", "newU", "rel_new_old"), 2: ("newU", "newU", "rel_new_old", "newU", "rel_new_mid")}
+
+
+def unit_cases(depth):
+    """histories over units with a transitive part_of (inverse has_part): objects survive while others they were
+    related to die, with and without sweeps in between; from the empty graph and from two pre-related populations"""
+    out = []
+    for start, pre in UNIT_STARTS.items():
+        for k in range(1, depth + 1 - (1 if pre else 0)):
+            for seq in itertools.product(UNIT_OPS, repeat=k):
+                full = pre + seq
+                if not pre and (seq[0] != "newU" or seq.count("newU") < 2):
+                    continue
+                if not any(o.startswith("rel") for o in full) or not any(o.startswith(("drop", "clear")) for o in seq):
+                    continue
+                out.append(("units", full))
+    return list(dict.fromkeys(out))
+
+
+def run_units(case, note=""):
+    from krrood.entity_query_language.symbol_graph import SymbolGraph
+    from oracles.closure import closure
+    from krrood.ontomatic.property_descriptor.mixins import HasInverseProperty, TransitiveProperty
+    _, seq = case
+    res = CaseResult()
+    _O.reset_graph()
+    live = []
+    asserted = []  # (source, "part_of", target) facts whose ends are both alive and which were not given up
+    n = 0
+    states = []
+    died = False
+    for i, op in enumerate(seq):
+        n += 1
+        res.transitions += 1
+        where = f"units: after {seq[:i + 1]}{note}"
+        try:
+            if op == "newU":
+                live.append(_O.VUnit(f"u{n}"))
+            elif op.startswith("rel_") and len(live) >= 2:
+                src, tgt = {"rel_new_old": (live[-1], live[0]), "rel_old_new": (live[0], live[-1]),
+                            "rel_new_mid": (live[-1], live[len(live) // 2 - 1 if len(live) > 2 else 0])}[op]
+                if src is not tgt and not any(f[0] is src and f[2] is tgt for f in asserted):
+                    src.part_of.append(tgt)
+                    asserted.append((src, "part_of", tgt))
+            elif op in ("clear_new", "clear_old") and live:
+                o = live[-1] if op == "clear_new" else live[0]
+                o.part_of = []
+                asserted = [f for f in asserted if f[0] is not o]
+            elif op in ("drop_old", "drop_new") and live:
+                o = live.pop(0 if op == "drop_old" else -1)
+                asserted = [f for f in asserted if f[0] is not o and f[2] is not o]
+                r = weakref.ref(o)
+                del o
+                if r() is not None:
+                    gc.collect()
+                died = died or r() is None
+            elif op == "sweep":
+                SymbolGraph().remove_dead_instances()
+            src = tgt = o = None
+        except Exception as e:
+            res.failures.append(Failure("crash", f"{where}: {type(e).__name__}: {e}"))
+            break
+        # invariants over the live units: no entry of a managed field is None or dead, and the closure of the facts
+        # asserted among live units is present in their fields
+        bad = None
+        have = set()
+        for u in live:
+            for f in ("part_of", "has_part", "directly_part_of"):
+                for e in list(getattr(u, f)):
+                    e = e() if isinstance(e, weakref.ref) else e
+                    if e is None:
+                        bad = f"{u.name}.{f} contains None (an entry for an instance that no longer exists)"
+                    else:
+                        have.add((id(u), f, id(e)))
+        if bad:
+            res.failures.append(Failure("dead-entry-in-field", f"{where}: {bad}"))
+            break
+        exp, _ = closure(asserted, _O.FIELDS, _O.ROLE_TAKER_FIELD, TransitiveProperty, HasInverseProperty)
+        # giving up a relation (field = []) is a retraction, whose effect on inferred facts is not defined; histories
+        # with a retraction are only checked for crashes and dead entries
+        if not exp <= have and not any(o.startswith("clear") for o in seq[:i + 1]):
+            names = {id(u): u.name for u in live}
+            lack = sorted((names.get(a, "?"), f, names.get(b, "?")) for a, f, b in exp - have)
+            res.failures.append(Failure("missing-inference", f"{where}: fields of the live units lack {lack}"))
+            break
+        states.append((len(live), len(SymbolGraph().wrapped_instances), len(have), op))
+    res.states = states
+    res.outcome_key = ("units", tuple(states[-1:]))
+    res.features = ["units"] + (["units:survivor-after-death"] if died and live else [])
+    if died:
+        res.nontrivial_key = case
+    live.clear()
+    asserted = []
+    gc.collect()
+    gc.freeze()
+    return res
 
 
 def admissible(pre):
@@ -154,7 +264,10 @@ def run_suffix(suf):
     asserted = []
     for a in asserts:
         p, c = objs["p"], objs["c"]
-        if a == "w":
+        if a == "sweep":
+            from krrood.entity_query_language.symbol_graph import SymbolGraph
+            SymbolGraph().remove_dead_instances()
+        elif a == "w":
             p.works_for = c
             asserted.append((p, "works_for", c))
         elif a == "m":
@@ -208,6 +321,19 @@ def hook_births():
 
 
 def run_case(case):
+    if case[0] == "units":
+        return run_units(case)
+    if case[0] == "units@recycled":
+        hook_births()
+        _ADV[0] = idadv.IdAdversary(recycle=True)
+        try:
+            with idadv.installed(_ADV[0]):
+                res = run_units(("units", case[1]), " [identities of dead instances are reused at once]")
+            if res.nontrivial_key is not None:
+                res.nontrivial_key = case
+            return res
+        finally:
+            _ADV[0] = None
     if len(case) == 4:
         hook_births()
         _ADV[0] = idadv.IdAdversary(recycle=True)
@@ -342,7 +468,7 @@ def classify(case, failure):
 
 
 def cluster_key(case, f):
-    return (f.kind, case[2])
+    return (f.kind, case[2] if case[0] not in ("units", "units@recycled") else f.detail.split(": ", 1)[-1][:60])
 
 
 def repro(case):
